@@ -122,6 +122,16 @@ def main():
             phi = bi(rng.choice(["or", "and", "implies"]), *((p1, p2) if rng.random() < 0.7 else (p2, p1)))
             if rng.random() < 0.3:
                 phi = un(rng.choice(["once", "hist", "not"]), phi)
+        if not shaped and "x" in vars_of(phi) and rng.random() < 0.08:
+            # the signal x is the field x of an object-typed variable o (o.x >= 1) that is declared an input or an output
+            # (seed r11 C06-2: the kind looked up under the dotted name, which is no key of the table)
+            import copy as _copy
+            phi = _copy.deepcopy(phi)
+            for q_ in subformulas(phi):
+                if q_["op"] == "var" and q_["v"] == "x":
+                    q_["v"] = "o.x"
+            vs = [("o.x" if v_ == "x" else v_) for v_ in vs]
+            io = {("o.x" if v_ == "x" else v_): t_ for v_, t_ in io.items()}
         N = rng.choice([1, 2, 3, 5, 8])
         w = gen_trace(rng, vs, N, S, lo=-2, hi=3)
         mode = {"sem": sem, "io": io}
